@@ -48,15 +48,19 @@ def build_all(ck):
     flags = ["-O1", "-g", "-fno-access-control", "-pthread"]
     ck.exe_pure = cxx_build(PID, "pure", [H + "pure.cpp"], flags=flags, libs=libs)
     ck.exe_real = cxx_build(PID, "real", [H + "real.cpp"], flags=flags, libs=libs)
+    ck.exe_asan = cxx_build(PID, "real_asan", [H + "real.cpp"], libs=libs,
+                            flags=flags + ["-fsanitize=address", "-fno-omit-frame-pointer", "-fno-sanitize-recover=all"])
 
 
-def run_lines(exe, lines, timeout=600):
+def run_lines(exe, lines, timeout=600, env=None):
     """Feed lines to a line-protocol harness; survive crashes/timeouts: returns one output (or None) per line."""
     out = [None] * len(lines)
     start = 0
     crashes = []
+    if env is not None:
+        env = dict(os.environ, **env)
     while start < len(lines):
-        rc, o, e = sh([exe], input="\n".join(lines[start:]) + "\n", timeout=timeout)
+        rc, o, e = sh([exe], input="\n".join(lines[start:]) + "\n", timeout=timeout, env=env)
         got = o.split("\n")
         if got and got[-1] == "":
             got = got[:-1]
@@ -65,7 +69,8 @@ def run_lines(exe, lines, timeout=600):
             break
         k = min(len(got), len(lines) - start - 1)
         out[start:start + k] = got[:k]
-        crashes.append((start + k, rc, e[-300:]))
+        m = re.search(r"ERROR: AddressSanitizer[^\n]*", e)
+        crashes.append((start + k, rc, m.group(0) if m else e[-300:]))
         start = start + k + 1          # skip the line that killed the harness
     return out, crashes
 
@@ -120,6 +125,14 @@ def gen(ck):
     m = re.search(r"for\(\s*;\s*k\s*!=\s*begin\s*\+\s*serial_cutoff\s*;\s*\+\+k\s*\)\s*\{\s*if\(\s*comp\(\s*\*\(\s*k\s*\+\s*1\s*\)\s*,\s*\*k\s*\)\s*\)", src)
     ck.oblige("gen:serial-probe-loop-recognised", "generated", bool(m),
               "" if m else "`for(; k != begin + serial_cutoff; ++k) if (comp(*(k+1), *k))` not found in parallel_quick_sort")
+    # start_scan's virtual steal: under the runtime's oldest-first stealing no sampled run takes the
+    # `&m_body != m_left_sum` branch with is_stolen(ed) false, so this guard is tied textually (the model's `treatAsStolen`)
+    scan_src = re.sub(r"\s+", "", re.sub(r"//[^\n]*", "", open(os.path.join(REPO, "include/oneapi/tbb/parallel_scan.h")).read()))
+    guards = ["booltreat_as_stolen=m_is_right_child&&(is_stolen(ed)||&m_body.get()!=m_parent->m_result.m_left_sum);",
+              "booltreat_as_stolen=m_is_right_child&&(&m_body.get()!=m_parent->m_result.m_left_sum||is_stolen(ed));"]
+    ok = any(gd in scan_src for gd in guards)
+    ck.oblige("gen:scan treat_as_stolen guard == model (is_right_child && (is_stolen || m_body != parent's m_left_sum))", "generated", ok,
+              "" if ok else "start_scan::execute no longer computes treat_as_stolen as the model does")
     return c
 
 
@@ -208,10 +221,10 @@ def check_split_post(c, a, outline):
     """implementation-side monitor of the split postcondition; returns None or a description"""
     w = outline.split()
     if "BAD-BEGIN" in w:
-        return "new range does not begin right after the pivot"
+        return "the old range no longer begins at the start of the array"
     try:
-        j, rs = int(w[0]), int(w[1])
-        b = [int(x) for x in w[2:]]
+        j, rs, off = int(w[0]), int(w[1]), int(w[2])
+        b = [int(x) for x in w[3:]]
     except (ValueError, IndexError):
         return "unparsable output %r" % outline[:80]
     n = len(a)
@@ -220,8 +233,10 @@ def check_split_post(c, a, outline):
         return "result is not a permutation of the input"
     if not (0 <= j < n):
         return "pivot position %d outside the array" % j
-    if j + 1 + rs != n:
-        return "sizes do not add up / pivot not excluded: left %d + pivot + right %d != %d" % (j, rs, n)
+    if off != j + 1:
+        return "pivot not excluded from both parts: left part is [0,%d), right part begins at %d" % (j, off)
+    if off + rs != n:
+        return "sizes do not add up: left %d + pivot + right %d != %d" % (j, rs, n)
     if not (j < n and rs < n):
         return "a part is not smaller than the input"
     piv = b[j]
@@ -385,14 +400,14 @@ def reduce_scenarios(ck):
         for g in ([1, 2, 3, 16] if quick else [1, 2, 3, 5, 7, 16, 100]):
             sc.append(("L", "simple", n, g, 1, 0, 0))
     # replay correspondence under real steals
-    for _ in range(150 if quick else 2500):
+    for _ in range(2000 if quick else 40000):
         n = rng.choice(sizes + [rng.randrange(2, 400)])
         g = rng.choice(grains)
         if n // g > 600:
             g = max(g, n // 300)
         sc.append(("L", "simple", n, g, rng.choice([2, 3, 4, 8, 16]), rng.randrange(1 << 30), rng.choice([0, 20, 60, 200])))
     # all partitioners / both range kinds: monitors
-    for _ in range(200 if quick else 3000):
+    for _ in range(3000 if quick else 60000):
         n = rng.choice(sizes + [rng.randrange(2, 3000), 5000])
         g = rng.choice(grains)
         part = rng.choice(["auto", "static", "affinity", "simple"])
@@ -576,6 +591,16 @@ def search_reduce(ck):
 # ---------------------------------------------------------------------------------------------
 # E-REAL: parallel_deterministic_reduce
 # ---------------------------------------------------------------------------------------------
+def det_in_order(term, n):
+    """the leaves of the observed join tree, left to right, are the range in order, each body used once"""
+    leaves = [(int(a), int(b)) for a, b in re.findall(r"\[(\d+),(\d+)\)", term)]
+    pos, ok = 0, "(R" not in term
+    for a, b in leaves:
+        ok = ok and a == pos and a < b
+        pos = b
+    return ok and pos == n
+
+
 def run_det(ck):
     rng = ck.rng
     quick = ck.tier == "quick"
@@ -589,7 +614,7 @@ def run_det(ck):
     threads = [1, 2, 3, 4, 8, 16] if quick else [1, 2, 3, 4, 5, 6, 7, 8, 12, 16]
     for part, n, g in cfgs:
         for T in threads:
-            for rep in range(1 if quick else 3):
+            for rep in range(3 if quick else 10):
                 lines.append("det %s %d %d %d %d %d" % (part, n, g, T, rng.randrange(1 << 30), rng.choice([0, 30, 100])))
                 meta.append((part, n, g, T))
     outs, crashes = run_lines(ck.exe_real, lines, timeout=1800)
@@ -648,14 +673,10 @@ def run_det(ck):
         # same tree everywhere but not the model's: does it at least keep the operands in order?
         i, text = bad_model[0]
         term = outs[i].split(" term=", 1)[1]
-        leaves = [(int(a), int(b)) for a, b in re.findall(r"\[(\d+),(\d+)\)", term)]
-        pos, ok = 0, "(R" not in term
-        for a, b in leaves:
-            ok = ok and a == pos and a < b
-            pos = b
-        if not ok or pos != meta[i][1]:
+        if not det_in_order(term, meta[i][1]):
             ck.counterexample("det:order", "deterministic reduce term does not list the range in order: %s" % term[:200],
-                              {"engine": "E-REAL", "harness": H + "real.cpp", "stdin": lines[i], "repeat": 5, "expect_regex": r".*"})
+                              {"engine": "E-REAL", "harness": H + "real.cpp", "stdin": lines[i], "repeat": 5, "monitor": "det-order",
+                               "n": meta[i][1]})
 
 
 # ---------------------------------------------------------------------------------------------
@@ -736,7 +757,7 @@ def run_scan(ck):
         for g in ([1, 2, 5] if quick else [1, 2, 3, 5, 16]):
             for part in ("simple", "auto"):
                 sc.append((part, n, g, 1, 0, 0))
-    for _ in range(250 if quick else 4000):
+    for _ in range(3000 if quick else 60000):
         n = rng.choice([2, 3, 4, 5, 8, 13, 16, 33, 64, 100, 257, 1000, rng.randrange(2, 600)])
         g = rng.choice([1, 2, 3, 7, 16, 50])
         if n // g > 500:
@@ -860,6 +881,39 @@ def run_sort(ck):
         elif d.get("moved") == "0" and len(a) >= ck.consts.get("minParallelSize", 500) and is_sorted_wrt(c, a) and int(d.get("uncovered", "0")) > 0:
             uncovered.append((i, int(d["first_uncovered"])))
     ck.extra["sort_input_distribution"] = dist
+    # which path did parallel_sort take?  On an already sorted input of >= 32 elements std::sort compares
+    # non-adjacent elements (median-of-three), the probe + pretest path compares adjacent pairs only.
+    pq, pobs = [], []
+    for i, (m, o) in enumerate(zip(meta, outs)):
+        cls, c, a, T = m
+        d = parse_kv(o)
+        if cls == "sorted" and len(a) >= 32 and "nonadj" in d:
+            pq.append("path %d" % len(a))
+            pobs.append((i, "1" if int(d["nonadj"]) > 0 else "0"))
+    pm = drv("c06", "\n".join(pq) + "\n") if pq else []
+    bad_path = [(i, ob, mo) for (i, ob), mo in zip(pobs, pm) if ob != mo]
+    ck.oblige("corr:parallel_sort takes the serial std::sort path iff n < min_parallel_size (observed through the comparison "
+              "pattern on sorted inputs) == model", "correspondence", not bad_path,
+              "" if not bad_path else "n=%d cmp %s: observed serial=%s, model serial=%s" % (
+                  len(meta[bad_path[0][0]][2]), meta[bad_path[0][0]][1], bad_path[0][1], bad_path[0][2]))
+    # memory safety of the algorithm on its input: the same code under AddressSanitizer, exact-size buffers
+    alines, ameta = [], []
+    for c in CMPS:
+        for n in list(range(0, 14)) + [499, 500, 501, 1000]:
+            for a in (sorted_for(c, n), sorted_for(c, n)[::-1], [rng.randrange(0, 3 * n + 1) for _ in range(n)]):
+                alines.append("sort %s %d %d %s" % (c, rng.choice([1, 4]), n, " ".join(map(str, a))))
+                ameta.append((c, a))
+    aouts, acr = run_lines(ck.exe_asan, alines, timeout=900, env={"ASAN_OPTIONS": "detect_leaks=0:halt_on_error=1"})
+    abad = [(i, "rc=%s %s" % (rc, e[:200])) for i, rc, e in acr]
+    abad += [(i, "wrong result " + (o or "")[:60]) for i, o in enumerate(aouts) if o is not None and not o.startswith("sorted=1 first_unsorted=-1 perm=1 ")]
+    ck.count(len(alines), ("sort-asan", len(acr)))
+    ck.oblige("monitor:parallel_sort only touches [begin,end) (AddressSanitizer build, exact-size buffers, n = 0..13 and around 500)",
+              "correspondence", not abad, "" if not abad else "%s: %s" % (alines[abad[0][0]][:80], abad[0][1]))
+    if abad and not bad:
+        i, text = min(abad, key=lambda t: len(alines[t[0]]))
+        ck.counterexample("sort:memory:%s:n=%d" % (ameta[i][0], len(ameta[i][1])), "parallel_sort on %d elements: %s" % (len(ameta[i][1]), text),
+                          {"engine": "E-REAL", "harness": H + "real.cpp", "exe": "real_asan", "stdin": alines[i], "repeat": 3,
+                           "env": {"ASAN_OPTIONS": "detect_leaks=0:halt_on_error=1"}, "expect_regex": r"^sorted=1 first_unsorted=-1 perm=1 "})
     ck.oblige("monitor:parallel_sort leaves a sorted permutation (sorted / one inversion anywhere / many equal keys / random, "
               "sizes around the 500 cutoff, 5 comparators)", "correspondence", not bad,
               "" if not bad else "class %s cmp %s n=%d threads=%d: %s" % (meta[bad[0][0]][0], meta[bad[0][0]][1], len(meta[bad[0][0]][2]), meta[bad[0][0]][3], bad[0][1]))
@@ -941,8 +995,10 @@ def run(ck):
         "is the oracle and subsumes every steal pattern, partitioner and grain size; values in the free monoid",
         "deterministic reduce model: eager split, free-magma values; static_partitioner's proportional split is modelled for size < 65536 and "
         "divisor <= 64 (where the binary32 formula is exact); its tree also depends on the partition divisor (= arena concurrency), by design of oneTBB",
-        "scan model: big-step over the task tree with an oracle for is_stolen / should_execute_range; the theorem is proved for the no-steal "
-        "and single-steal oracles (general oracle: sampled correspondence + exhaustive model check for small sizes only)",
+        "scan model: big-step over the task tree with an oracle for is_stolen / should_execute_range (theorem for every oracle); big-step is "
+        "justified by the code's own argument: a right child that is not stolen runs after the left task on the same thread and "
+        "`m_left_sum == &m_body` can only have been written by a leaf that ran sequentially on that body; the two children of a sum_node "
+        "in pass 2 are evaluated right-then-left, the model flags (err) and the theorem excludes that they share a body",
         "sort model: split_range / medians / is_divisible / serial probe / pretest body; std::sort on leaves is a hypothesis (sorted permutation); "
         "parallel_for's tiling of the pretest range and its split decisions are taken from C05 (hypothesis `tiles`, oracle `Dec`)",
         "not modelled: cancellation and exceptions inside reduce/scan bodies (join skipped when cancelled), affinity replay, memory orders "
@@ -950,21 +1006,28 @@ def run(ck):
         "E-REAL samples schedules of real threads; monitors flag only what the property forbids"]
     ck.trusted += ["checks/c06.py (event canonicalisation, oracle reconstruction, monitors)", "harness/c06/*.cpp (recording bodies, LRange)",
                    "correspondence is sampled (differential), not proved"]
+    import time
+    times = ck.extra["stage_seconds"] = {}
+
+    def stage(name, f):
+        t0 = time.time()
+        f(ck)
+        times[name] = round(time.time() - t0, 1)
     ck.consts = gen(ck)
-    ck.lean_stage()
-    build_all(ck)
-    run_pure(ck)
-    run_sort(ck)
+    stage("lean", lambda ck: ck.lean_stage())
+    stage("build", build_all)
+    stage("pure", run_pure)
+    stage("sort", run_sort)
     pure_counterexamples(ck)
-    run_reduce(ck)
-    run_det(ck)
-    run_scan(ck)
+    stage("reduce", run_reduce)
+    stage("det", run_det)
+    stage("scan", run_scan)
 
 
 def replay(ck, obj):
     r = obj["replay"]
     build_all(ck)
-    exe = ck.exe_pure if r["harness"].endswith("pure.cpp") else ck.exe_real
+    exe = ck.exe_pure if r["harness"].endswith("pure.cpp") else (ck.exe_asan if r.get("exe") == "real_asan" else ck.exe_real)
     if "stdin_pair" in r:
         terms = set()
         for _ in range(r.get("repeat", 20)):
@@ -983,12 +1046,17 @@ def replay(ck, obj):
         bad = "crash" if outs[0] is None else check_split_post(w[1], a, outs[0])
         print("replay of %s: %s -> %s" % (obj.get("key"), line[:120], bad or "split postcondition holds now"))
         return 1 if bad else 0
+    if r.get("monitor") == "det-order":
+        outs, cr = run_lines(exe, [line] * r.get("repeat", 5), timeout=300)
+        bad = [o for o in outs if o is None or not det_in_order(o.split(" term=", 1)[-1], r["n"])]
+        print("replay of %s: `%s`: %d runs with operands out of order%s" % (obj.get("key"), line, len(bad), (": " + str(bad[0])[:200]) if bad else ""))
+        return 1 if bad else 0
     if r.get("monitor") == "no-crash":
         outs, cr = run_lines(exe, [line], timeout=300)
         print("replay of %s: %s" % (obj.get("key"), "STILL CRASHES" if cr else "no crash now"))
         return 1 if cr else 0
     rep = r.get("repeat", 50)
-    outs, cr = run_lines(exe, [line] * rep, timeout=900)
+    outs, cr = run_lines(exe, [line] * rep, timeout=900, env=r.get("env"))
     rx = re.compile(r.get("expect_regex", ".*"))
     bad = [o for o in outs if o is None or not rx.search(o)]
     print("replay of %s: `%s` x %d: %d failing runs" % (obj.get("key"), line[:160], rep, len(bad)))
